@@ -19,6 +19,11 @@ const ENTRY_MENU = [
   { name: '1', key: '1', kind: 'prop', optional: false, type: 'string', special: true },
   { name: 'ck', key: "['ck']", kind: 'prop', optional: true, type: 'number', special: true },
   { name: 'na', kind: 'prop', optional: true, type: null },
+  // names that collide with Object.prototype members, reserved words, non-ASCII identifiers (`__proto__` is left out:
+  // in an object literal it is not a property at all)
+  { name: 'constructor', kind: 'prop', optional: false, type: 'string' },
+  { name: 'default', kind: 'prop', optional: true, type: 'number' },
+  { name: 'été', kind: 'method', optional: false },
 ];
 const keySrc = (n) => (/^[A-Za-z_$][\w$]*$/.test(n) ? n : `'${n}'`);
 function memberSrc(e) {
